@@ -48,3 +48,21 @@ fn u06_rle_segment_utf8() {
         assert!(d.byte_pos <= 5);
     }
 }
+
+// ---- KNOWN FINDING (listed in known_findings.txt, not repaired) -------------------------------------------------
+// The call-site condition of automerge's BUNDLE decoder: storage/bundle/builder.rs builds `hexane::decoder` /
+// `DeltaDecoder` over the raw column bytes of a bundle chunk and BundleStorage::verify "validates" the chunk by
+// running those same streaming iterators -- so `Iterator::next` of the streaming (unchecked) decoder meets bytes
+// no validating pass has seen.  The obligation "next() on ANY bytes returns, it does not panic" (C15 at that
+// boundary) FAILS: a dangling varint continuation byte unwraps an Err in `RleValue::unpack` (lib.rs), a null run
+// in a non-nullable column panics in `get_null`.  For String columns the same path reaches the unchecked
+// `from_utf8_unchecked` in `<String as RleValue>::unpack` without validation (C39).
+#[kani::proof]
+#[kani::unwind(8)]
+fn u06_bundle_decoder_call_site() {
+    let bytes: [u8; 2] = kani::any();
+    let n: usize = kani::any();
+    kani::assume(n <= 2);
+    // what `Iterator::next` of the streaming decoder does with the bytes of a value: the UNCHECKED unpack
+    let _ = <u64 as crate::RleValue>::unpack::<Leb128>(&bytes[..n]);
+}
